@@ -29,6 +29,32 @@ def expected_round_keys():
     return out
 
 
+def bv_schedule(prog, f, target):
+    """key_schedule interpreted on one key of 8 provenance bytes: -> {output column: word with .get(bit)} or None when not evaluable"""
+    from .. import symtensor, ratfun, bitvec
+    np = symtensor.np
+    if np is None:
+        return None
+    key = np.array([bitvec.BV.source('key', i) for i in range(8)], dtype=object)
+    te = symtensor.TensorEval(prog, None, {})
+    try:
+        out = te.run(f, {f.params[0]: key, f.params[1]: target})
+    except bitvec.Mix as e:
+        raise bitprov.Abort(f'the schedule is not a selection of key bits: {e}')
+    except (ratfun.Unknown, symtensor.Raised, IndexError, ValueError, TypeError):
+        return None
+    if not isinstance(out, np.ndarray) or out.ndim != 2 or out.shape[1] != 8:
+        raise bitprov.Abort(f'for one key the schedule returns shape {getattr(out, "shape", None)}, documented (rounds, 8)')
+    arr = {}
+    for r in range(out.shape[0]):
+        for w in range(8):
+            try:
+                arr[r * 8 + w] = bitvec.BV.lift(out[r, w])
+            except bitvec.Mix:
+                return None
+    return arr
+
+
 def d1(ctx, prog):
     want = expected_round_keys()
     got, node = tables.literal(prog, D, 'ROUND_KEY_BITS_INDEXES')
@@ -57,12 +83,19 @@ def d1(ctx, prog):
         n = 0
         stops = []
         for target in range(15, -1, -1):
-            it = bitprov.Interp(f, consts={'ROUND_KEY_BITS_INDEXES': got}, skip=skip, env={'interrupt_after_round': target}, input_cols=8)
-            it.params = {'key'}
-            it.run()
-            arr = it.arrays.get('output_key')
-            if arr is None:
-                raise bitprov.Abort('output array not found')
+            try:
+                it = bitprov.Interp(f, consts={'ROUND_KEY_BITS_INDEXES': got}, skip=skip, env={'interrupt_after_round': target}, input_cols=8)
+                it.params = {'key'}
+                it.run()
+                arr = it.arrays.get('output_key')
+                if arr is None:
+                    raise bitprov.Abort('output array not found')
+            except bitprov.Abort as first:
+                # vectorised forms (table gathers, broadcast weights, axis sums into views): the function is interpreted on an array
+                # of bit-vector provenance cells instead, numpy doing the indexing (sa.bitvec on sa.symtensor)
+                arr = bv_schedule(prog, f, target)
+                if arr is None:
+                    raise first
             written = sorted(arr)
             if written != list(range(8 * (target + 1))):
                 stops.append((target, len(written) // 8 if written == list(range(len(written))) else written[:3]))
